@@ -404,7 +404,7 @@ impl Check for C13 {
     }
     fn rule(&self) -> String {
         format!(
-            "corpus: the {} sample projects; gen: generated legal projects (projgen, 1-5 packages); failing: the same with 1-4 text replacements spread over the files (several diagnostics from several packages). One run's output = whole-program compile (stage; Go text; ast, hir, tast, core, mono, lift, anf dumps as the CLI prints them; or the diagnostics with stage, severity, range and message in order, project root replaced by <ROOT>) + separate pipeline in goml's own topological order (per package: check_package's interface_hash and JSON, build_package's interface_hash, interface JSON and core JSON with the root prefix of `sources` normalised, or the error; the linked Go text). Oracle: (a) two runs in one process (every HashMap gets fresh keys) give identical outputs; (b) 1-2 fresh processes (`verif replay C13` on a dump case) report the same digest; (c) the project written to another, deeper root with files and directories created in the reverse of a random order gives identical outputs; no output except diagnostics mentions the root path. Non-trivial = some package has >= 2 imports or the compile reports >= 2 diagnostics; distinct by hash of the files.",
+            "corpus: the {} sample projects; gen: generated legal projects (projgen, 1-5 packages); failing: the same with 1-4 text replacements spread over the files (several diagnostics from several packages). One run's output = whole-program compile (stage; Go text; ast, hir, tast, core, mono, lift, anf dumps as the CLI prints them; or the diagnostics with stage, severity, range and message in order, project root replaced by <ROOT>) + separate pipeline in goml's own topological order (per package: check_package's interface_hash and JSON, build_package's interface_hash, interface JSON and core JSON with the root prefix of `sources` normalised, or the error; the linked Go text). Oracle: (a) two runs in one process (every HashMap gets fresh keys) give identical outputs; (b) 1-2 fresh processes (`verif replay C13` on a dump case) report the same digest; (c) the project written to another, deeper root with files and directories created in the reverse of a random order gives identical outputs; no output except diagnostics mentions the root path. A third of the generated projects bind 2-4 Go packages with extern declarations that main calls; packages may have files whose names differ only in case; in the third run every package's files are handed to check/build in reverse order. Non-trivial = some package has >= 2 imports or the compile reports >= 2 diagnostics; distinct by hash of the files.",
             corpus::project_cases().len()
         )
     }
